@@ -148,15 +148,18 @@ Result(api, sk, kk, n, L, R, ss, ks) ==
          [] api = "put" -> IF n = 0 THEN <<EINVAL>> ELSE PutObs(PutChunk(kk, e, Tokens(0, n)))
          [] api = "putam" -> PutObs(SinkOnce(kk, e, Tokens(0, n)))
          [] api = "puto" -> PutObs(PutOctet(kk, e, 1))
-         [] api = "cbc" -> PlumbObs(Cbc(sk, kk, e))
-         [] api = "ncbc" -> PlumbObs(NCbc(sk, kk, e, n, 0))
-         [] api = "dcbc" -> PlumbObs(DrainCbc(sk, kk, e))
+         \* sts_some / sts_atmost / sts_n / sts_drain on endpoints without buffer extension fall back to the
+         \* per-octet path: "ssts", "asts", "nsts", "dsts"
+         [] api \in {"cbc", "ssts", "asts"} -> PlumbObs(Cbc(sk, kk, e))
+         [] api \in {"ncbc", "nsts"} -> PlumbObs(NCbc(sk, kk, e, n, 0))
+         [] api \in {"dcbc", "dsts"} -> PlumbObs(DrainCbc(sk, kk, e))
          [] api = "someaux" -> PlumbObs(SomeAux(sk, kk, e, R))
          [] api = "amaux" -> PlumbObs(SomeAux(sk, kk, e, MinOf(R, n)))
          [] api = "naux" -> LET r == NAux(sk, kk, e, R, n) IN PlumbObs(IF r.rc < 0 THEN r ELSE Ret(n, r.e))
          [] OTHER -> PlumbObs(DrainAux(sk, kk, e, R))     \* "daux"
 
 ---------------------------------------------------------------------------
+PlApis == {"cbc", "ncbc", "dcbc", "someaux", "amaux", "naux", "daux", "ssts", "asts", "nsts", "dsts"}
 (* C17 on the model: evaluated per case *)
 IsPrefixOfStream(s) == \A i \in 1..Len(s) : s[i] = Tok(i)
 CaseOK(api, sk, kk, n, L, R, ss, ks) ==
@@ -175,12 +178,12 @@ CaseOK(api, sk, kk, n, L, R, ss, ks) ==
                  /\ (api = "put" /\ rc >= 0 => rc = n /\ Len(got) = n)
                  /\ (api = "putam" /\ rc >= 0 => rc = Len(got) /\ rc <= n)
                  /\ (rc < 0 => rc = EIO \/ (api = "putam" /\ rc \in {EINTR, EAGAIN}))
-         [] api \in {"cbc", "ncbc", "dcbc", "someaux", "amaux", "naux", "daux"} ->
+         [] api \in PlApis ->
               LET got == Drop(o, 3)
               IN /\ IsPrefixOfStream(got) /\ Len(got) <= o[2]
-                 /\ (api \in {"ncbc", "naux"} /\ rc >= 0 => rc = n /\ Len(got) = n /\ o[2] = n)
-                 /\ (api = "amaux" /\ rc >= 0 => Len(got) <= n /\ rc = Len(got))
-                 /\ (api \in {"dcbc", "daux"} => rc < 0 /\ (rc = ENODATA => Len(got) = L))
+                 /\ (api \in {"ncbc", "naux", "nsts"} /\ rc >= 0 => rc = n /\ Len(got) = n /\ o[2] = n)
+                 /\ (api \in {"amaux", "asts"} /\ rc >= 0 => Len(got) <= n /\ rc = Len(got))
+                 /\ (api \in {"dcbc", "daux", "dsts"} => rc < 0 /\ (rc = ENODATA => Len(got) = L))
          [] OTHER -> TRUE
 
 ---------------------------------------------------------------------------
@@ -189,7 +192,6 @@ Scripts(B, k) == SeqsUpTo(B, k)
 Line(api, sk, kk, n, L, R, ss, ks) ==
     api \o " " \o Join(<<sk, kk, n, L, R, Len(ss)>> \o ss \o <<Len(ks)>> \o ks) \o " | "
 RwApis == {"get", "getam", "put", "putam"}
-PlApis == {"cbc", "ncbc", "dcbc", "someaux", "amaux", "naux", "daux"}
 Init == /\ phase \in {<<"b", api, k>> : api \in RwApis \cup PlApis \cup {"geto", "puto"}, k \in {1, 2}} /\ ev = Boot
 Next == /\ phase[1] = "b" /\ ev' = Boot
         /\ LET api == phase[2]
@@ -205,8 +207,8 @@ Next == /\ phase[1] = "b" /\ ev' = Boot
               \/ /\ api \in PlApis
                  /\ \E kk \in {1, 2}, n \in 1..3, L \in {2, 4}, R \in {1, 2, 3},
                        ss \in Scripts(PBeh, MaxPScript), ks \in Scripts(PBeh, MaxKScript) :
-                       /\ (api \in {"cbc", "ncbc", "dcbc"} => R = 1)
-                       /\ (api \in {"cbc", "dcbc", "someaux", "daux"} => n = 1)
+                       /\ (api \in {"cbc", "ncbc", "dcbc", "ssts", "asts", "nsts", "dsts"} => R = 1)
+                       /\ (api \in {"cbc", "dcbc", "someaux", "daux", "ssts", "dsts"} => n = 1)
                        /\ phase' = <<"c", api, k, kk, n, L, R, ss, ks>>
 Spec == Init /\ [][Next]_<<vars, ev>>
 
